@@ -77,14 +77,17 @@ Definition norm_ok (s : Q) (v : list Q) : bool :=
   let ss := sumsq Qops v in
   Qle_bool 0 s && Qle_bool (Qabs (Qred (s * s - ss))) (Qred (ss * (1 # 1152921504606846976))).
 
-(* contract of the SVD tape (toleranced): U diag(s) V = input, U^T U = I, V V^T = I, s >= 0 *)
+(* contract of the SVD tape (toleranced): U diag(s) V = input, U^T U = I, V V^T = I, s >= 0; square factors orthogonal on both sides *)
 Definition svd_tape_ok (atol rtol : Q) (U : M) (s : list Q) (V : M) (rows : M) : bool :=
   let k := length s in
   Nat.eqb (length V) k && forallb (fun r : list Q => Nat.eqb (length r) k) U
   && forallb (fun x => Qle_bool 0 x) s
   && rows_close atol rtol (mat_mul Qops U (scale_rows Qops s V)) rows
   && rows_close (1 # 1000000000) 0 (mat_mul Qops (cols_of Qops U) U) (identity_mat Qops k)
-  && rows_close (1 # 1000000000) 0 (mat_mul Qops V (cols_of Qops V)) (identity_mat Qops k).
+  && rows_close (1 # 1000000000) 0 (mat_mul Qops V (cols_of Qops V)) (identity_mat Qops k)
+  (* the extra clause of C12_procrustes_feasible: a square V (tall / square input), resp. a square U (wide / square input), is orthogonal *)
+  && (negb (Nat.eqb (length (hd [] V)) k) || rows_close (1 # 1000000000) 0 (mat_mul Qops (cols_of Qops V) V) (identity_mat Qops k))
+  && (negb (Nat.eqb (length U) k) || rows_close (1 # 1000000000) 0 (mat_mul Qops U (cols_of Qops U)) (identity_mat Qops k)).
 
 (* exact certificates decided on the MODEL's output (so that the theorems of Proofs/ apply to it) *)
 Definition model_cert (atol rtol : Q) (o : op) (rows : M) : bool :=
